@@ -21,7 +21,7 @@ RULE = ('connected routines: every connected labelled 4-node graph with two vert
         '(thorough 3); latticisers: all n! initial orders x k iterations, default D and a symmetric caller-supplied D (as float64, '
         'int64 and uint8 arrays), directed latticisers also with two asymmetric D; '
         'randomize_graph_partial_und: masks one empty cell / all-but-one empty cell / every other empty cell / two occupied cells plus empty cells / all occupied cells (distinct weights); ALL generator answers per '
-        'configuration; rejection clause: every disconnected graph n<=5 and every asymmetric 0/1 3-node matrix; '
+        'configuration; rejection clause: every disconnected graph n<=5, every asymmetric 0/1 3-node matrix and five disconnected inputs of 140-220 nodes (two complete blocks with / without self-connections, a cut path); '
         'non-trivial configuration = one where at least one candidate swap was refused and one accepted '
         '(>= 2 distinct outputs) or an input that must be rejected')
 ASSUMPTIONS = ['caller-supplied D for the undirected latticisers is symmetric (the code constrains one orientation only)',
@@ -160,7 +160,27 @@ def plan(ctx):
         for (a, b) in ss.ranges(tot, 8 if n >= 5 else 1):
             units.append(('reject_disconnected', n, a, b))
     units.append(('reject_asymmetric', 3, 0, 64))
+    units.append(('reject_large', 0, 0, 4))
     return units
+
+
+def large_disconnected():
+    """disconnected inputs of more than 128 nodes: two equal complete blocks (every node linked to half the network)
+    with and without self-connections, and a long path with one connection removed."""
+    out = []
+    for m in (70, 110):
+        B = np.zeros((2 * m, 2 * m))
+        B[:m, :m] = 1
+        B[m:, m:] = 1
+        np.fill_diagonal(B, 0)
+        Bd = B + np.eye(2 * m)
+        out += [('2xK%d' % m, B), ('2xK%d_selfloops' % m, Bd)]
+    P = np.zeros((200, 200))
+    for i in range(199):
+        if i != 99:
+            P[i, i + 1] = P[i + 1, i] = 1
+    out.append(('path200_cut', P))
+    return out
 
 
 def unit_cost(unit):
@@ -253,6 +273,16 @@ def work(unit):
         return rw.explore_config(PROPERTY, unit[1], judge, invariant,
                                  max_executions=3000000 if THOROUGH[0] else 300000)
     kind, n, a, b = unit
+    if kind == 'reject_large':
+        for idx, (label, X) in enumerate(large_disconnected()):
+            for fn in ('randmio_und_connected', 'latmio_und_connected'):
+                case = {'family': 'disconnected_large', 'index': idx, 'graph': label, 'A': 'large_disconnected[%d]' % idx}
+                st, out = guarded(getattr(bct, fn), X.copy(), 0, seed=0, _timeout=300)
+                t.c['evaluations'] += 1
+                t.c['nontrivial'] += 1
+                if not (st == 'exc' and isinstance(out, bct.BCTParamError)):
+                    t.viol(fn, 'rejects_disconnected', case, observed=str(out)[:80], expected='BCTParamError')
+        return t
     if kind == 'reject_disconnected':
         for idx in range(a, b):
             A = ss.und_graph(n, (0, 1), idx)
@@ -292,6 +322,8 @@ def replay(rec):
     if 'config' in case:
         return rw.replay_case(PROPERTY, rec, judge, invariant)
     t = Tally(PROPERTY)
+    if case.get('family') == 'disconnected_large':
+        return work(('reject_large', 0, 0, 4))
     A = np.array(case['A'], dtype=float)
     clause = rec['clause']
     st, out = guarded(getattr(bct, rec['function']), A.copy(), 1, seed=0)
